@@ -16,6 +16,7 @@ import plumpy
 
 from .. import ckpt, programs
 from ..ckpt import NOVALUE, PS
+from .. import explore
 from ..explore import digest
 
 ID = 'C13'
@@ -143,7 +144,7 @@ def _work(chunk: List[Tuple[tuple, tuple, tuple, str]]) -> Dict[str, Any]:
     out: Dict[str, Any] = {'n': 0, 'violations': [], 'nontrivial': 0, 'outcomes': set(), 'restores': 0}
     for case in chunk:
         out['n'] += 1
-        vs = check_case(*case)
+        vs = explore.guarded_case({'program': case[0], 'resumes': case[1], 'restore_at': case[2], 'medium': case[3]}, check_case, *case)
         if case[2]:
             out['nontrivial'] += 1
             out['restores'] += len(case[2])
